@@ -5,5 +5,6 @@ import (
 	_ "package-operator.run/internal/packages/zzverif/checks/c01"
 	_ "package-operator.run/internal/packages/zzverif/checks/c11"
 	_ "package-operator.run/internal/packages/zzverif/checks/c12"
+	_ "package-operator.run/internal/packages/zzverif/checks/c17"
 	_ "package-operator.run/internal/packages/zzverif/checks/c20"
 )
